@@ -759,12 +759,18 @@ class Header:
         subint_hdr = pfits.SubintHdr(filename)
 
         header: dict[str, Any] = {}
+        foff, fch1 = subint_hdr.freqs.foff, subint_hdr.freqs.fch1
+        if foff > 0:
+            # the reader delivers the channels of an ascending band in descending
+            # order (PFITSFile.read_subints flips them): label them accordingly
+            fch1 = subint_hdr.freqs.array[-1]
+            foff = -foff
         hdr_update = {
             "filename": filename,
             "data_type": "filterbank",
             "nchans": subint_hdr.nchans,
-            "foff": subint_hdr.freqs.foff,
-            "fch1": subint_hdr.freqs.fch1,
+            "foff": foff,
+            "fch1": fch1,
             "nbits": subint_hdr.nbits,
             "tsamp": subint_hdr.tsamp,
             "tstart": primary_hdr.tstart.mjd,
